@@ -18,9 +18,27 @@ columns and latency(per_component) their per-component sum (documented);
 resource_usage() == max over the raw `reservation<SEP><memory><SEP>...` columns.
 Tolerance rel 2^-20 / abs 1e-9.
 
-Mutation self-test (VERIF_REPO scratch copies via mc/mutant.sh, quick tier): see MUTANTS.
-MUTANTS:
-  (pending)
+FINDING on the unchanged tree (kept firing, families `nodetail-table/...`): on tables
+without breakdown columns -- `map_workload_to_arch(eval_in_detail=False)` and the public
+`join_pmappings()` -- `energy()` returns the int 0 and `latency()` returns None although
+the table has `Total<SEP>energy` / `Total<SEP>latency` columns (mappings.py:586-610 and
+661-695: the accessors only sum `<einsum><SEP>energy|latency<SEP>...` columns and never
+look at the Total columns).  The statement says "for any result set, energy() equals the
+Total energy column".  resource_usage() is correct on those tables.
+
+Mutation self-test (2026-09-21/22).  Full quick runs through mc/mutant.sh:
+  * mappings.py energy(): leak rows only when not per_action            -> caught
+    (model-table/energy-breakdown-sum!=total/per_action x247, mapper tables x4)
+  * mappings.py latency(): np.maximum over components replaced by +     -> caught
+    (model-table/latency()!=Total-latency x247, mapper tables x8)
+Targeted runs (same oracle functions on a patched copy, 7 model tables + 3 mapper tables):
+  * pmapping_dataframe.py merge_next: objective columns added twice     -> caught on 2-/3-Einsum
+    tables (Total-energy-column!=sum-of-energy-columns, Total-latency-column!=...)
+  * mappings.py actions(): key indices [.., per_tensor, per_component]  -> caught
+    (actions(none)-raises, actions-breakdown-sum!=total/per_tensor, /per_einsum, ...)
+  * mappings.py resource_usage(): last reservation column instead of max -> MISSED: every
+    table reachable through the public API has exactly one reservation column per memory
+    (the joiner frees to loop index -1 before returning), so max == last (known gap).
 """
 
 from __future__ import annotations
@@ -198,8 +216,6 @@ def check_table(T, detailed, label=""):
                     probs.append((f"actions-breakdown-sum!=total/{tag}" + label,
                                   {"actions": {k: got.get(k, zeros)[:3].tolist() for k in badk[:4]},
                                    "sum_of_columns": {k: per_action.get(k, zeros)[:3].tolist() for k in badk[:4]}}))
-    elif not detailed:
-        pass
     # ---------------------------------------------------------------- latency
     tot_l = total_col("latency")
     have_lat = bool(raw["latency"])
@@ -348,8 +364,12 @@ def body_T(cfg):
                 break
     viol = None
     if probs:
+        fam = probs[0][0]
+        if not detail and all(f.startswith("nodetail-table/") for f, _ in probs):
+            # one family naming every accessor that ignores the Total column of a table without breakdown columns
+            fam = "nodetail-table/" + "+".join(sorted({f.split("/")[1] for f, _ in probs}))
         viol = {"observed": [{"family": f, **d} for f, d in probs[:4]],
-                "expected": "every breakdown sums to the un-broken-down value == Total column", "family": probs[0][0],
+                "expected": "every breakdown sums to the un-broken-down value == Total column", "family": fam,
                 "config": sample}
     return Result(outcome=(info["n"], tuple(info["energy"][:6])), nontrivial=info["nontrivial"], violation=viol,
                   evaluations=1 + calls, sample=dict(sample, rows=info["n"]),
